@@ -28,6 +28,7 @@
 
 #include "sched/sched_case.h"
 
+#include <algorithm>
 #include <new>
 
 namespace {
@@ -202,6 +203,12 @@ struct World {
                 if (c.first == s)
                     Sched::failRun(inUpdateSharedSuffix(r, s) ? "update-shared-slice-freed-while-reader-holds-entry" : "slice-freed-while-reader-holds-entry",
                                    "slice " + std::to_string(s) + " freed while P" + std::to_string(r.proc) + " reads anchor " + std::to_string(r.fileno) + " generation " + std::to_string(r.gen));
+        // A slice that is free already is freed again: after that the allocator hands the same slice to two owners and every
+        // later verdict would only describe the wreckage, so the run fails here, at the root event.  Seen when a second updater
+        // splices the suffix of an edition whose (shared) suffix slices were freed meanwhile.
+        if (std::find(pool.begin(), pool.end(), s) != pool.end())
+            Sched::failRun(suffixOfStaleGen[s] >= 0 ? "update-shared-slice-freed-twice" : "slice-freed-twice",
+                           "slice " + std::to_string(s) + " freed by P" + std::to_string(Sched::self()) + " although it is free already");
         sliceTag[s] = 0; // suffixOfStaleGen[s] is kept until the slice is handed out again
         pool.push_back(s);
     }
